@@ -550,6 +550,29 @@ int main(int argc, char **argv) {
   sa.sa_flags = SA_RESETHAND;
   sigaction(SIGABRT, &sa, nullptr);
 
+  // replay of one graph given as "n:u-v,u-v,..." (the reference_edges field of a witness)
+  if (A.has("graph")) {
+    RG g;
+    std::string spec = A.str("graph");
+    g.n = std::atoi(spec.c_str());
+    size_t p = spec.find(':');
+    std::istringstream is(p == std::string::npos ? "" : spec.substr(p + 1));
+    std::string tok;
+    while (std::getline(is, tok, ',')) {
+      size_t d = tok.find('-');
+      if (d == std::string::npos) continue;
+      g.e.push_back({std::atoi(tok.substr(0, d).c_str()), std::atoi(tok.substr(d + 1).c_str())});
+    }
+    g.cls = "replay";
+    g.norm();
+    for (long k = 0; k < relabels; ++k) {
+      gen_attrs(g, rng);
+      Labelling L = k == 0 ? natural(g) : relabel(g, rng);
+      judge(C, g, L, g.n <= 8);
+    }
+    R.summary();
+    return 0;
+  }
   // exhaustive part: every isomorphism class up to 6 vertices, sharded
   if (!A.has("no-exhaustive")) {
     std::vector<RG> small = enumerate_small();
